@@ -17,7 +17,7 @@ run_one() {
   git -C /repo worktree remove --force $WT 2>/dev/null; rm -rf $WT
 }
 export -f run_one
-ls -d seeded/C*-mut* | xargs -P 6 -I{} bash -c 'run_one {}' > seeded/MATRIX.tsv.tmp
-sort seeded/MATRIX.tsv.tmp > seeded/MATRIX.tsv; rm seeded/MATRIX.tsv.tmp
+ls -d ${MATRIX_GLOB:-seeded/C*-mut*} | xargs -P 6 -I{} bash -c 'run_one {}' > ${MATRIX_OUT:-seeded/MATRIX.tsv}.tmp
+sort ${MATRIX_OUT:-seeded/MATRIX.tsv}.tmp > ${MATRIX_OUT:-seeded/MATRIX.tsv}; rm ${MATRIX_OUT:-seeded/MATRIX.tsv}.tmp
 git -C /repo worktree prune
-cat seeded/MATRIX.tsv | cut -f1-3
+cat ${MATRIX_OUT:-seeded/MATRIX.tsv} | cut -f1-3
